@@ -51,24 +51,26 @@ for tier, k in (("q", 3), ("t", 4)):
     cfg("c03b_" + tier, N2, k, ["sections", "props"], [], [], CD, life=2, emit=J3)
     cfg("c03c_" + tier, N2, k, ["blocks", "sources", "groups", "mtags", "arrays"], [], [], CD, life=2, emit=J3)
     cfg("c03d_" + tier, N1, k, ["blocks", "arrays", "tags", "sources", "groups"], ["refs", "esources", "garrays", "gtags"], [],
-        ["Create", "Link", "Close", "Open"], life=2, emit=J3)
+        ["Create", "Link", "Close", "Open"], life=2, emit=J3, gen=1)
     cfg("c03f_" + tier, N2, k, ["blocks", "arrays", "tags", "groups"], ["refs", "garrays"], [], ["Create", "Links", "Close", "Open"], life=2, steps=k + 4, emit=["SetLinks", "Open"])
     cfg("c03e_" + tier, N3, k, ["blocks"], [], [], CD, life=2, emit=J3)
     # C04: deletion in link graphs (sibling structures need two names)
     J4 = ["Delete"]
     L = ["Create", "Delete", "Link", "One"]
-    cfg("c04a_" + tier, N1, k + 2, ["blocks", "arrays", "tags", "mtags", "features"], ["refs"], ["positions", "extents", "data"], L, emit=J4)
-    cfg("c04b_" + tier, N1, k, ["blocks", "sections", "sources", "arrays", "groups"], ["esources", "garrays"], ["metadata", "link"], L, emit=J4)
-    cfg("c04c_" + tier, N1, k, ["blocks", "arrays", "frames", "groups", "tags"], ["gframes", "garrays", "gtags", "refs"], [], L + ["Dims"], dims=2, emit=J4)
-    cfg("c04d_" + tier, N2, k + 1, ["blocks", "sources", "arrays"], ["esources"], [], L, steps=k + 3, emit=J4)
-    cfg("c04e_" + tier, N1, k, ["blocks", "arrays", "tags", "sources"], ["refs", "esources"], ["metadata"], L + ["Close", "Open"], life=2, emit=J4)
-    cfg("c04f_" + tier, N2, k, ["sections", "props"], [], ["link"], L, steps=k + 2, emit=J4)
-    cfg("c04g_" + tier, N2, k + 1, ["blocks", "sections", "sources"], [], ["metadata"], L, steps=k + 2, emit=J4)
+    cfg("c04a_" + tier, N1, k + 2, ["blocks", "arrays", "tags", "mtags", "features"], ["refs"], ["positions", "extents", "data"], L, emit=J4, gen=1)
+    cfg("c04b_" + tier, N1, k, ["blocks", "sections", "sources", "arrays", "groups"], ["esources", "garrays"], ["metadata", "link"], L, emit=J4, gen=1)
+    cfg("c04c_" + tier, N1, k, ["blocks", "arrays", "frames", "groups", "tags"], ["gframes", "garrays", "gtags", "refs"], [], L + ["Dims"], dims=2, emit=J4, gen=1)
+    cfg("c04d_" + tier, N2, k + 1, ["blocks", "sources", "arrays"], ["esources"], [], L, steps=k + 3, emit=J4, gen=1)
+    cfg("c04e_" + tier, N1, k, ["blocks", "arrays", "tags", "sources"], ["refs", "esources"], ["metadata"], L + ["Close", "Open"], life=2, emit=J4, gen=1)
+    cfg("c04f_" + tier, N2, k, ["sections", "props"], [], ["link"], L, steps=k + 2, emit=J4, gen=1)
+    cfg("c04g_" + tier, N2, k + 1, ["blocks", "sections", "sources"], [], ["metadata"], L, steps=k + 2, emit=J4, gen=1)
     # C08: every rejected call in every state of the universe
     R = ["Create", "CreateBad", "Delete", "Link", "One", "Foreign", "Type"]
     cfg("c08a_" + tier, N1, k + 1, ["blocks", "arrays", "tags", "mtags", "features"], ["refs"], ["positions", "extents", "data"], R, res="reject")
     cfg("c08b_" + tier, N1, k, ["blocks", "sources", "arrays", "groups", "frames"], ["esources", "garrays", "gframes"], [], R, res="reject")
     cfg("c08d_" + tier, N1, k + 1, ["blocks", "arrays", "tags", "sources", "groups"], ["refs", "esources", "garrays", "gtags"], [], ["Create", "Link", "Links", "Foreign"], steps=k + 3, res="reject")
+    # two blocks with equally named arrays / tags: a same-named entity of the OTHER block as link target
+    cfg("c08e_" + tier, N2, k + 2, ["blocks", "arrays", "tags"], ["refs"], [], ["Create", "Link", "Links"], steps=k + 4, res="reject", emit=["AddLink", "RemoveLink", "SetLinks"])
     cfg("c08c_" + tier, N1, k, ["blocks", "sections", "props", "sources"], [], ["metadata", "link"], R, steps=k + 2, res="reject")
     # C02: reopen identity (every history, close + reopen in either mode; also flush / reopen inside)
     A2 = ["Create", "Delete", "Link", "One", "Attr", "Type", "Def", "Dims", "Flush", "Close", "Open"]
